@@ -189,7 +189,7 @@ PROPS = {
         "components": ["batcher", "batch", "batcherload", "plumbing"],
         "required_theorems": ["PgBifrost.Props.C16.tick_flushes_due", "PgBifrost.Props.C16.tick_pressure",
                               "PgBifrost.Props.C16.tick_pressure_order", "PgBifrost.Props.C16.age_invariant",
-                              "PgBifrost.Props.C16.age_bound", "PgBifrost.Props.C16.options_reach_their_own_slot"],
+                              "PgBifrost.Props.C16.age_bound", "PgBifrost.Props.C16.options_reach_their_own_slot", "PgBifrost.Props.C16.handle_ticker_structure_as_in_source"],
         "partial": "the tick DECISION is proved for every open set, clock reading and Go map/heap order (validTick), and the age bound "
                    "in logical time (age_invariant / age_bound over Model/BatcherTimed: for every arrival pattern no open batch is overdue "
                    "relative to the last handled tick, and an overdue batch is dispatched by the next one; the layer's create/modify-time "
